@@ -125,9 +125,25 @@ def totality(ctx: Ctx, spec, dtype):
         ctx.violation(f"{spec.name} modified its input matrix", rp)
         return False
     # history independence / seeded reproducibility
-    others = [torch.randn(rng.choice([m, m]), rng.choice([1, 3, 5]), generator=g, dtype=dtype) for _ in range(2)]
+    other_dtype = torch.float64 if dtype == torch.float32 else torch.float32
+    others = [torch.randn(m, rng.choice([1, 3, 5]), generator=g, dtype=dtype),
+              torch.randn(m, rng.choice([2, n]), generator=g, dtype=torch.float64).to(other_dtype),   # same rows, OTHER dtype
+              J.to(other_dtype)]
     for O in others:
-        attempt(A, O)
+        amax = float(O.abs().max()) if O.numel() else 0.0
+        if not torch.isfinite(O).all() or (O.dtype == torch.float32 and amax != 0 and not (1e-12 <= amax <= 1e15)):
+            continue          # outside the documented scale range of that dtype
+        torch.manual_seed(seed)
+        so, xo = attempt(A, O)
+        torch.manual_seed(seed)
+        sf, xf = attempt(spec.make(m, dtype, pv), O)      # a fresh instance with the SAME configuration
+        same = (so == sf) and (so != "ok" or (xo.dtype == xf.dtype and torch.equal(xo.isnan(), xf.isnan())
+                                          and torch.equal(xo.nan_to_num(), xf.nan_to_num())))
+        if not same:
+            ctx.violation(f"{spec.name}: an instance that was first called on a {dtype} matrix gives "
+                          f"{'error ' + str(xo) if so != 'ok' else 'a different result'} on a {O.dtype} matrix with the same "
+                          f"number of rows, unlike a fresh instance (result depends on earlier calls)", rp)
+            return False
     torch.manual_seed(seed)
     st2, x2 = attempt(A, J)
     B = spec.make(m, dtype, pv)
